@@ -58,9 +58,12 @@ Step ==
            name == o.op[1]
            newTable == {<<x[1], x[2]>> : x \in ToSet(o.table)}
            \* tasks that stop being live before anything new is started in this step
-           gone == IF name = "disconnect" THEN {g \in live : tasks[g].peer = o.op[2]}
-                   ELSE IF name = "done" /\ o.op[2] \in DOMAIN tasks THEN {o.op[2]}
-                   ELSE {}
+           \* (a peer disconnects by an explicit step, or because the node dropped it in this step:
+           \* `disc` lists the peers whose disconnection the step caused)
+           gone == (IF name = "disconnect" THEN {g \in live : tasks[g].peer = o.op[2]}
+                    ELSE IF name = "done" /\ o.op[2] \in DOMAIN tasks THEN {o.op[2]}
+                    ELSE {})
+                   \cup {g \in live : tasks[g].peer \in ToSet(o.disc)}
            \* was the result of a "done" step applied to the table entry of its repository?
            g == IF name = "done" THEN o.op[2] ELSE 0
            known == g \in DOMAIN tasks
